@@ -18,11 +18,33 @@
 //                a stream is IN the hypothesis for a threshold thr iff the metric exceeds thr^2 (with 1e-3 margin) at the
 //                alignment index only (resp. nowhere, for streams without preamble).  Streams outside the hypothesis
 //                are counted (S lines) and still go through CORR.
-//   CORR: the same calls are replayed by the Lean model (`Model/Detect.lean`) through `dspdriver_c18`.
+//     round 2 (classes added after the second round of seeded defects):
+//       preamble FAMILIES: besides the constant-envelope ones (Zadoff-Chu, full-band complex chirp, m-sequence BPSK / QPSK) real linear chirps,
+//                amplitude-windowed chirps (Hann, Hamming, Tukey, Gauss), ternary PN (an m-sequence gated by a second one), multi-level PN
+//                (PAM-4/8, 16/64-QAM chips), amplitude-tapered PN: the matched filter's gain 1/(nh rms(p)) differs from 1/sum|p| and the like
+//                only when |p[k]| is not constant; the score is compared with sqrt(reference metric) to 1e-9 besides |score-1| <= 0.05
+//       SCALE classes, independently for the reference coefficients (1e-100 .. 1e100, 2^+-300, 2^-7, 2^9) and the stream (1e-5 .. 1e100, 2^-9, 2^40,
+//                2^300; 1e-7 .. denorm_min = below the eps() floor: the reference metric decides whether anything may be reported); scales whose
+//                square leaves the double range are CORR only; a stream louder than 1e4 with windows of exact silence is counted but not judged
+//                (eps() is an absolute regulariser: the rounding noise of the block correlator over pwx + eps() = eps() reaches the threshold)
+//       HISTORIES (C18:detector-history-*): rejected calls (length not a multiple of frame_len(): 1, F-1, F+1, 2F+1, nh, 3F-1, 7F+3, > 2^16, filled with
+//                noise / a full preamble / the head of a preamble) before the first frame, between the frame where the preamble starts and the one
+//                where it completes, between all frames, empty calls, reset() after other material / after a report / in the middle of a preamble /
+//                on a fresh detector / twice: the valid frames must give what a fresh detector gives on them (bit-exact; after reset() score to 1e-9)
+//       LONG streams (C18:detector-long-*): one preamble after N = 3*2^14, 2^16, .., 2^18 (thorough .. 2^20) samples through ONE detector, its end at EVERY
+//                sample position in a window of 1..3 frames on both sides of N, single frames / the history in one call (> 2^16, 2^17 samples) /
+//                everything in one call / calls of 1..3 frames / small calls and then a giant one; every returned sample compared bit for bit
+//       SOAK (C18:detector-soak-*): a preamble every 2F+1 samples over 2^17 (thorough 2^18, 2^20) samples, every start phase: every (frame index, end offset)
+//                pair is visited; one report per copy, in its frame, offset, samples, score (T18.4 "every state, every call"; one copy per frame)
+//       estimators: both operands of finddelay / gccphat independently at 1e-100 .. 1e100, 2^+-300 (pairs whose correlation squared leaves the double
+//                range are skipped and counted), temporaries as arguments / results bound to const& / range-for, valid calls after a call that threw
+//   CORR: the same calls are replayed by the Lean model (`Model/Detect.lean`) through `dspdriver_c18`; tag det2 = scripts of process / rejected process /
+//         empty process / reset() on explicit (X) or generated (G: splitmix64 background + inserted samples, evaluated exactly on both sides) streams.
 #include "common.hpp"
 #include <dsplib/gccphat.h>
 #include <dsplib/detector.h>
 #include <algorithm>
+#include <optional>
 #include <set>
 using namespace dsplib;
 typedef long double ld;
@@ -447,7 +469,79 @@ static arr_cmplx pn_seq(vh::Rng& r, int N, bool qpsk) {   // LFSR m-sequence whe
 }
 static int gcd_i(int a, int b) { return b ? gcd_i(b, a % b) : a; }
 
-static const char* PK[] = {"zadoff-chu", "chirp", "pn-bpsk", "pn-qpsk"};
+static const char* PK[] = {"zadoff-chu", "chirp", "pn-bpsk", "pn-qpsk", "real-chirp", "windowed-chirp", "pn-ternary", "pn-multilevel", "pn-tapered"};
+static const int NPK = 9;
+static const ld PI_L = 3.14159265358979323846264338327950288L;
+
+// --- families whose envelope is NOT constant (the matched filter's gain 1/(rms(p) nh) differs from 1/sum|p| etc. only there)
+static arr_cmplx real_chirp_seq(vh::Rng& r, int N) {   // real-valued linear FM sweep (audio / sonar front end): cos(phi0 + 2 pi (f0 t + (f1-f0) t^2 / (2N)))
+    const ld f0 = 0.02L * r.unit(), f1 = 0.25L + 0.2L * r.unit(), ph0 = 2 * PI_L * r.unit();
+    arr_cmplx p(N);
+    for (int n = 0; n < N; ++n) {
+        const ld ph = ph0 + 2 * PI_L * (f0 * n + (f1 - f0) * (ld)n * n / (2.0L * N));
+        p[n] = cmplx_t{(double)cosl(ph), 0.0};
+    }
+    return p;
+}
+static std::vector<double> taper_of(vh::Rng& r, int N, int wk) {   // amplitude tapers, all strictly positive
+    std::vector<double> w(N);
+    const double a = 0.25 + 0.5 * r.unit();
+    for (int n = 0; n < N; ++n) {
+        const double u = (n + 1.0) / (N + 1.0);   // (0, 1)
+        double v;
+        switch (wk) {
+        case 0: v = std::sin(3.141592653589793 * u); v = v * v; break;                                           // Hann
+        case 1: v = 0.54 - 0.46 * std::cos(6.283185307179586 * u); break;                                        // Hamming
+        case 2: v = u < a / 2 ? 0.5 * (1 - std::cos(6.283185307179586 * u / a)) : (u > 1 - a / 2 ? 0.5 * (1 - std::cos(6.283185307179586 * (1 - u) / a)) : 1.0); break;   // Tukey
+        case 3: { const double t = (u - 0.5) / 0.2; v = std::exp(-0.5 * t * t); break; }                        // Gaussian
+        case 4: v = 0.25 + 0.75 * u; break;                                                                      // linear ramp up
+        default: v = 1.0 - 0.7 * u; break;                                                                       // linear ramp down
+        }
+        w[n] = v;
+    }
+    return w;
+}
+static arr_cmplx windowed_chirp_seq(vh::Rng& r, int N) {
+    arr_cmplx p = chirp_seq(r, N);
+    const std::vector<double> w = taper_of(r, N, r.range(0, 3));
+    for (int n = 0; n < N; ++n) p[n] = cmplx_t{p[n].re * w[n], p[n].im * w[n]};
+    return p;
+}
+static arr_cmplx pn_ternary_seq(vh::Rng& r, int N) {   // {-1, 0, +1}: an m-sequence gated by a second one (about half of the chips are zero)
+    for (;;) {
+        const arr_cmplx a = pn_seq(r, N, false), b = pn_seq(r, N, false);
+        arr_cmplx p(N);
+        int nz = 0;
+        for (int n = 0; n < N; ++n) { const bool on = b[n].re > 0; p[n] = cmplx_t{on ? a[n].re : 0.0, 0.0}; nz += on; }
+        if (4 * nz >= N && nz < N) return p;
+    }
+}
+static arr_cmplx pn_multilevel_seq(vh::Rng& r, int N) {   // PAM-4 / PAM-8 chips on I (and, half of the time, on Q: 16/64-QAM)
+    const int bits = r.range(2, 3);
+    const bool qam = r.coin();
+    std::vector<arr_cmplx> bi, bq;
+    for (int b = 0; b < bits; ++b) { bi.push_back(pn_seq(r, N, false)); bq.push_back(pn_seq(r, N, false)); }
+    arr_cmplx p(N);
+    for (int n = 0; n < N; ++n) {
+        int li = 0, lq = 0;
+        for (int b = 0; b < bits; ++b) { li = 2 * li + (bi[b][n].re > 0); lq = 2 * lq + (bq[b][n].re > 0); }
+        const int M = 1 << bits;
+        p[n] = cmplx_t{(double)(2 * li - (M - 1)), qam ? (double)(2 * lq - (M - 1)) : 0.0};
+    }
+    return p;
+}
+static arr_cmplx pn_tapered_seq(vh::Rng& r, int N) {
+    arr_cmplx p = pn_seq(r, N, r.coin());
+    const std::vector<double> w = taper_of(r, N, r.range(1, 5));
+    for (int n = 0; n < N; ++n) p[n] = cmplx_t{p[n].re * w[n], p[n].im * w[n]};
+    return p;
+}
+// sum|p| / (nh rms(p)) : 1 for a constant envelope, < 1 otherwise (statistics: how far the family is from constant envelope)
+static double envelope_flatness(const arr_cmplx& p) {
+    ld s1 = 0, s2 = 0;
+    for (int j = 0; j < p.size(); ++j) { const ld a2 = (ld)p[j].re * p[j].re + (ld)p[j].im * p[j].im; s1 += sqrtl(a2); s2 += a2; }
+    return (double)(s1 / sqrtl(s2 * p.size()));
+}
 static arr_cmplx gen_preamble(vh::Rng& r, int N, int kind) {
     switch (kind) {
     case 0: {   // root 1 / N-1 (low aperiodic sidelobes) most of the time, any coprime root otherwise
@@ -458,17 +552,23 @@ static arr_cmplx gen_preamble(vh::Rng& r, int N, int kind) {
     }
     case 1: return chirp_seq(r, N);
     case 2: return pn_seq(r, N, false);
-    default: return pn_seq(r, N, true);
+    case 3: return pn_seq(r, N, true);
+    case 4: return real_chirp_seq(r, N);
+    case 5: return windowed_chirp_seq(r, N);
+    case 6: return pn_ternary_seq(r, N);
+    case 7: return pn_multilevel_seq(r, N);
+    default: return pn_tapered_seq(r, N);
     }
 }
 
-// long-double brute-force normalised metric of the detector at every stream index
-static std::vector<ld> ref_metric(const arr_cmplx& p, const arr_cmplx& x) {
-    const int nh = p.size(), n = x.size();
+// long-double brute-force normalised metric of the detector at every stream index (PW: mean window power |x|^2 without eps)
+static std::vector<ld> ref_metric(const arr_cmplx& p, const cmplx_t* x, int n, std::vector<ld>* PW = nullptr) {
+    const int nh = p.size();
     ld e = 0;
     for (int j = 0; j < nh; ++j) e += (ld)p[j].re * p[j].re + (ld)p[j].im * p[j].im;
     const ld rms2 = e / nh;   // rms(p)^2
     std::vector<ld> a2(n), M(n);
+    if (PW) PW->assign(n, 0);
     for (int t = 0; t < n; ++t) a2[t] = (ld)x[t].re * x[t].re + (ld)x[t].im * x[t].im;
     for (int t = 0; t < n; ++t) {
         ld cr = 0, ci = 0, pw = 0;
@@ -480,9 +580,13 @@ static std::vector<ld> ref_metric(const arr_cmplx& p, const arr_cmplx& x) {
             pw += a2[s];
         }
         M[t] = (cr * cr + ci * ci) / ((ld)nh * nh * rms2) / (pw / nh + EPSD);
+        if (PW) (*PW)[t] = pw / nh;
     }
     return M;
 }
+static std::vector<ld> ref_metric(const arr_cmplx& p, const arr_cmplx& x, std::vector<ld>* PW = nullptr) { return ref_metric(p, x.data(), x.size(), PW); }
+
+static bool bits_same(const cmplx_t& a, const cmplx_t& b) { return std::memcmp(&a.re, &b.re, sizeof(double)) == 0 && std::memcmp(&a.im, &b.im, sizeof(double)) == 0; }
 
 struct DetRun {
     bool threw = false;
@@ -524,13 +628,48 @@ static std::string det_lhs(const arr_cmplx& p, double thr, const arr_cmplx& x, c
     return "det " + vh::hx(thr) + " " + vh::hxs(p) + " " + I(fpc.size()) + vh::join_ints(fpc) + " " + vh::hxs(x);
 }
 
-static long long g_det_corr = 0;
+static long long g_det_corr = 0, g_scale_corr = 0;
 
-// one stream, several thresholds.  e < 0: stream without preamble.
-static void detector_stream(vh::Rng& r, const arr_cmplx& p, int pkind, const arr_cmplx& x, int e, const std::vector<double>& thrs, int F, int corr_budget,
-                            const std::string& bg) {
+// the clauses of the property for ONE preamble whose last sample is stream index e (want = the nh aligned stream samples):
+// exactly one report, in the call that contains e, offset = e - start of that call, returned samples bit-identical to the stream,
+// score >= threshold, score = sqrt(reference metric) to 1e-9, |score - 1| <= 0.05 (when the window power is above the eps() floor)
+static const ld SCORE_REL_TOL = 1e-9L;   // measured on the unchanged library: <= 1e-14
+static void judge_single(const std::string& js, int nh, double thr, const cmplx_t* want, int e, ld Me, ld PWe, const std::vector<int>& cstart, const std::vector<int>& clen,
+                         const std::vector<int>& det_call, const std::vector<PreambleDetector::Result>& res, const std::string& kp = "C18:detector-") {
+    int want_call = -1;
+    for (size_t c = 0; c < cstart.size(); ++c)
+        if (e >= cstart[c] && e < cstart[c] + clen[c]) want_call = (int)c;
+    if (det_call.empty()) { out.fail(kp + "missed", js); return; }
+    if (det_call.size() > 1) { out.fail(kp + "false", js); return; }
+    const PreambleDetector::Result& rs = res[0];
+    if (det_call[0] != want_call || rs.offset != e - cstart[want_call]) { out.fail(kp + "offset", js); return; }
+    bool pre_ok = rs.preamble.size() == nh;
+    for (int j = 0; pre_ok && j < nh; ++j) pre_ok = bits_same(rs.preamble[j], want[j]);
+    if (!pre_ok) out.fail(kp + "preamble", js);
+    const ld sref = sqrtl(Me);
+    const ld sdev = fabsl((ld)rs.score - sref) / sref;
+    bool score_ok = rs.score >= thr && sdev <= SCORE_REL_TOL;
+    if (PWe >= 1e3L * EPSD) {
+        out.stat("det_score_near_one_clause");
+        if (!(std::fabs(rs.score - 1.0) <= 0.05)) score_ok = false;
+        const long long dev = llround(std::fabs(rs.score - 1.0) * 1e9);
+        if (dev > out.stats["det_max_score_dev_e9"]) out.stats["det_max_score_dev_e9"] = dev;
+    } else out.stat("det_score_eps_floor_regime_metric_only");   // mean|x|^2 within 1000 eps(): the regulariser eps() in pwx + eps() pulls the score below 1 (by design)
+    if (!score_ok) out.fail(kp + "score", js);
+    if (std::isfinite((double)sdev)) {
+        const long long d15 = llroundl(sdev * 1e15L);
+        if (d15 > out.stats["det_max_score_vs_metric_rel_e15"]) out.stats["det_max_score_vs_metric_rel_e15"] = d15;
+    }
+}
+
+// one stream, several thresholds.  e < 0: stream without preamble.  corr_only: input class outside the range where |.|^2 is finite / normal in double
+static void detector_stream(vh::Rng& r, const arr_cmplx& p, int pkind, const arr_cmplx& x, int e, const std::vector<double>& thrs, int F, long long& corr_counter,
+                            int corr_budget, const std::string& bg, bool corr_only = false, const std::string& scale_note = "") {
     const int nh = p.size(), n = x.size();
-    const std::vector<ld> M = ref_metric(p, x);
+    std::vector<ld> PW;
+    const std::vector<ld> M = ref_metric(p, x, &PW);
+    ld gmax2 = 0, minPW = PW.empty() ? 0 : PW[0];
+    for (int t = 0; t < n; ++t) { gmax2 = std::max(gmax2, (ld)x[t].re * x[t].re + (ld)x[t].im * x[t].im); minPW = std::min(minPW, PW[t]); }
     for (double thr : thrs) {
         // framing: single frames, or calls of 1..3 frames
         std::vector<int> fpc;
@@ -547,17 +686,36 @@ static void detector_stream(vh::Rng& r, const arr_cmplx& p, int pkind, const arr
             if (fabsl(M[t] - t2) <= 1e-3L * t2) ++nmargin;
         }
         const bool in_hyp = nmargin == 0 && (e >= 0 ? (ncross == 1 && first_cross == e) : ncross == 0);
+        // conditioning: the rounding noise of the block FFT correlator (relative 64 eps of the loudest sample) divided by the smallest regularised window power
+        // must stay far below the threshold, otherwise the reference metric does not decide what an implementation in double may report
+        // (|x| > 1e4 next to windows of exact silence: eps() in pwx + eps() is an ABSOLUTE regulariser)
+        const bool ill = gmax2 * (64 * EPSD) * (64 * EPSD) > 1e-3L * t2 * (minPW + EPSD);
+        const bool below_floor = e >= 0 && nmargin == 0 && ncross == 0;   // the preamble is there but (eps() floor) the metric never reaches the threshold
         const std::string js = "{" + jstr("fn", "\"PreambleDetector\"") + jstr("preamble", std::string("\"") + PK[pkind] + "\"") + jstr("nh", I(nh)) +
                                jstr("threshold", vh::jnum(thr)) + jstr("frame_len", I(F)) + jstr("end_index", I(e)) + jstr("end_mod_frame", I(e < 0 ? -1 : e % F)) +
-                               jstr("background", "\"" + bg + "\"") + jstr("frames_per_call", vh::jints(fpc)) +
+                               jstr("background", "\"" + bg + "\"") + (scale_note.empty() ? std::string() : jstr("scale", "\"" + scale_note + "\"")) + jstr("frames_per_call", vh::jints(fpc)) +
                                (nh <= 32 ? jstr("p", vh::jarr(p)) + jstr("x", vh::jarr(x)) : std::string()) + jstr("stream_len", I(n), true) + "}";
         const DetRun d = run_detector(p, thr, x, fpc, js);
         if (d.frame_len != F) out.fail("C18:detector-framelen", js);
-        const bool do_corr = g_det_corr < corr_budget && (nh <= 128 || r.range(0, 3) == 0);
-        if (do_corr) { ++g_det_corr; out.corr(det_lhs(p, thr, x, fpc), d.rhs); }
+        const bool do_corr = !ill && ((corr_only && nh <= 256) || (corr_counter < corr_budget && (nh <= 128 || r.range(0, 3) == 0)));
+        if (do_corr) { ++corr_counter; out.corr(det_lhs(p, thr, x, fpc), d.rhs); }
+        if (corr_only) { out.stat("det_scale_outside_double_range_corr_only"); continue; }
+        if (ill) {   // statistics only
+            out.stat("det_illconditioned_loud_stream_with_silent_windows_not_judged");
+            const bool as_ref = e >= 0 && in_hyp ? (d.det_call.size() == 1 && d.call_start[d.det_call[0]] + d.res[0].offset == e) : (in_hyp || below_floor ? d.det_call.empty() : true);
+            out.stat(as_ref ? "det_illconditioned_report_as_reference_metric" : "det_illconditioned_report_DEVIATES_from_reference_metric");
+            continue;
+        }
+        if (below_floor) {
+            ++out.n_oracle;
+            out.stat("det_preamble_below_eps_floor_nothing_reported");
+            if (!d.det_call.empty()) out.fail("C18:detector-false", js);
+            continue;
+        }
         if (!in_hyp) {
             out.stat(e >= 0 ? "det_outside_hypothesis_with_preamble" : "det_outside_hypothesis_no_preamble");
             if (nh <= 32) out.stat(e >= 0 ? "det_outside_hypothesis_with_preamble_nh_le_32" : "det_outside_hypothesis_no_preamble_nh_le_32");
+            if (e >= 0) out.stat(std::string("det_outside_hypothesis_kind_") + PK[pkind]);
             // not part of the property: first report vs first crossing of the reference metric (statistics only)
             if (nmargin == 0) {
                 int want_call = -1, want_off = -1;
@@ -576,22 +734,12 @@ static void detector_stream(vh::Rng& r, const arr_cmplx& p, int pkind, const arr
             continue;
         }
         out.stat("det_with_preamble_in_hypothesis");
+        out.stat(std::string("det_in_hypothesis_kind_") + PK[pkind]);
         out.stat(e % F < nh - 1 ? "det_straddles_frame_boundary" : "det_inside_one_frame");
-        int want_call = -1;
-        for (size_t c = 0; c < d.call_start.size(); ++c)
-            if (e >= d.call_start[c] && e < d.call_start[c] + d.call_len[c]) want_call = (int)c;
-        if (d.det_call.empty()) { out.fail("C18:detector-missed", js); continue; }
-        if (d.det_call.size() > 1) { out.fail("C18:detector-false", js); continue; }
-        const PreambleDetector::Result& res = d.res[0];
-        if (d.det_call[0] != want_call || res.offset != e - d.call_start[want_call]) { out.fail("C18:detector-offset", js); continue; }
-        bool pre_ok = res.preamble.size() == nh;
-        for (int j = 0; pre_ok && j < nh; ++j) pre_ok = same(res.preamble[j], x[e - nh + 1 + j]);
-        if (!pre_ok) out.fail("C18:detector-preamble", js);
-        if (!(std::fabs(res.score - 1.0) <= 0.05) || !(res.score >= thr)) out.fail("C18:detector-score", js);
-        const long long dev = llround(std::fabs(res.score - 1.0) * 1e9);
-        if (dev > out.stats["det_max_score_dev_e9"]) out.stats["det_max_score_dev_e9"] = dev;
-        out.sample("{" + jstr("nh", I(nh)) + jstr("kind", std::string("\"") + PK[pkind] + "\"") + jstr("thr", vh::jnum(thr)) + jstr("end_mod_frame", I(e % F)) +
-                   jstr("offset", I(res.offset)) + jstr("score", vh::jnum(res.score), true) + "}");
+        judge_single(js, nh, thr, x.data() + (e - nh + 1), e, M[e], PW[e], d.call_start, d.call_len, d.det_call, d.res);
+        if (!d.res.empty())
+            out.sample("{" + jstr("nh", I(nh)) + jstr("kind", std::string("\"") + PK[pkind] + "\"") + jstr("thr", vh::jnum(thr)) + jstr("end_mod_frame", I(e % F)) +
+                       jstr("offset", I(d.res[0].offset)) + jstr("score", vh::jnum(d.res[0].score), true) + "}");
     }
 }
 
@@ -599,6 +747,42 @@ static int frame_len_of(int nh) {
     int p = 0;
     while ((1L << p) < 2 * nh) ++p;
     return (1 << p) - nh + 1;
+}
+
+// amplitude scale classes (lesson: every numeric input at absolute scales far from 1, independently for the reference and the stream)
+struct ScaleClass { double v; const char* name; int regime; };   // regime 0: |v|^2 finite and normal, 1: stream below the eps() floor, 2: |v|^2 over/underflows (CORR only)
+static const ScaleClass PG_CLASSES[] = {{1e-100, "1e-100", 0}, {1e-17, "1e-17", 0}, {1e-8, "1e-8", 0}, {1.0, "1", 0}, {1e8, "1e8", 0}, {1e100, "1e100", 0},
+                                        {0x1p-300, "2^-300", 0}, {0x1p300, "2^300", 0}, {0x1p-7, "2^-7", 0}, {0x1p9, "2^9", 0},
+                                        {1e-160, "1e-160", 2}, {1e-300, "1e-300", 2}, {1e160, "1e160", 2}, {1e300, "1e300", 2}};
+static const ScaleClass A_CLASSES[] = {{1e-5, "1e-5", 0}, {1e-3, "1e-3", 0}, {1.0, "1", 0}, {1e8, "1e8", 0}, {1e100, "1e100", 0}, {0x1p-9, "2^-9", 0}, {0x1p40, "2^40", 0}, {0x1p300, "2^300", 0},
+                                       {1e-7, "1e-7", 1}, {1e-8, "1e-8", 1}, {1e-17, "1e-17", 1}, {1e-100, "1e-100", 1}, {1e-300, "1e-300", 1}, {4.9406564584124654e-324, "denorm_min", 1},
+                                       {1e160, "1e160", 2}, {1e300, "1e300", 2}};
+
+static arr_cmplx scaled(const arr_cmplx& p0, double g) {
+    arr_cmplx p(p0.size());
+    for (int j = 0; j < p0.size(); ++j) p[j] = cmplx_t{p0[j].re * g, p0[j].im * g};
+    return p;
+}
+
+// a stream of n samples with the preamble A * rot * p0 ending at index e over one of the four backgrounds
+static arr_cmplx build_stream(vh::Rng& r, const arr_cmplx& p0, double A, int n, int e, int bgm, std::string& bg) {
+    const int nh = p0.size();
+    const double ph = 6.283185307179586 * r.unit();   // a random carrier phase on the received copy
+    const cmplx_t rot{std::cos(ph), std::sin(ph)};
+    arr_cmplx x(n);
+    for (int i = 0; i < n; ++i) x[i] = cmplx_t{0, 0};
+    const double prms = rms_of(p0);
+    if (bgm == 0) bg = "silence";
+    else if (bgm == 1) { bg = "additive-noise<=-30dB"; add_noise(r, x, A * prms * std::pow(10.0, -(30 + 30 * r.unit()) / 20)); }
+    else if (bgm == 2) { bg = "other-traffic-not-overlapping"; add_noise(r, x, A * prms * std::pow(10.0, -(20 * r.unit()) / 20)); for (int j = 0; j < nh; ++j) x[e - nh + 1 + j] = cmplx_t{0, 0}; }
+    else if (bgm == 3) { bg = "noise-floor-not-overlapping"; add_noise(r, x, A * prms * std::pow(10.0, -(20 + 40 * r.unit()) / 20)); for (int j = 0; j < nh; ++j) x[e - nh + 1 + j] = cmplx_t{0, 0}; }
+    else { bg = "negative-zero-silence"; for (int i = 0; i < n; ++i) x[i] = cmplx_t{-0.0, -0.0}; }
+    for (int j = 0; j < nh; ++j) {
+        const cmplx_t v = p0[j] * rot;
+        x[e - nh + 1 + j].re += A * v.re;
+        x[e - nh + 1 + j].im += A * v.im;
+    }
+    return x;
 }
 
 static void run_detector_all(vh::Rng& r) {
@@ -611,6 +795,7 @@ static void run_detector_all(vh::Rng& r) {
         some_res_len = {17, 32, 100, 127, 199, 256, 511, 512};
     }
     const int corr_budget = THOROUGH ? 900 : 260;
+    int iter = 0;
     auto one_len = [&](int nh, bool every) {
         const int F = frame_len_of(nh);
         std::vector<int> residues;
@@ -622,12 +807,14 @@ static void run_detector_all(vh::Rng& r) {
         }
         out.stat(every ? "det_lengths_every_offset" : "det_lengths_sampled_offset");
         for (int q : residues) {
-            const int pkind = r.range(0, 3);
+            ++iter;
+            // all nine families; the non-constant-envelope ones (4..8) at least every second time
+            const int pkind = (iter % 2) ? r.range(4, NPK - 1) : r.range(0, NPK - 1);
             const arr_cmplx p0 = gen_preamble(r, nh, pkind);
+            out.stats["det_min_envelope_flatness_e3"] = std::min<long long>(out.stats.count("det_min_envelope_flatness_e3") ? out.stats["det_min_envelope_flatness_e3"] : 1000, llround(envelope_flatness(p0) * 1000));
             // preamble coefficients may carry any gain: the detector normalises by rms(p)
             const double pg = std::pow(10.0, r.range(-2, 2) * 0.5);
-            arr_cmplx p(nh);
-            for (int j = 0; j < nh; ++j) p[j] = cmplx_t{p0[j].re * pg, p0[j].im * pg};
+            const arr_cmplx p = scaled(p0, pg);
             const int K = r.range(3, 4);
             const int n = K * F;
             // frame in which the preamble completes: its last sample has index e = f*F + q, start e-nh+1 >= 0
@@ -636,28 +823,20 @@ static void run_detector_all(vh::Rng& r) {
             const int e = f * F + q;
             // amplitude of the received preamble: 60 dB range
             const double A = std::pow(10.0, -2.0 + 3.0 * r.unit());
-            // a random carrier phase on the received copy
-            const double ph = 6.283185307179586 * r.unit();
-            const cmplx_t rot{std::cos(ph), std::sin(ph)};
-            arr_cmplx x(n);
-            for (int i = 0; i < n; ++i) x[i] = cmplx_t{0, 0};
-            const int bgm = r.range(0, 3);
             std::string bg;
-            const double prms = rms_of(p0);
-            if (bgm == 0) bg = "silence";
-            else if (bgm == 1) { bg = "additive-noise<=-30dB"; add_noise(r, x, A * prms * std::pow(10.0, -(30 + 30 * r.unit()) / 20)); }
-            else if (bgm == 2) { bg = "other-traffic-not-overlapping"; add_noise(r, x, A * prms * std::pow(10.0, -(20 * r.unit()) / 20)); for (int j = 0; j < nh; ++j) x[e - nh + 1 + j] = cmplx_t{0, 0}; }
-            else { bg = "noise-floor-not-overlapping"; add_noise(r, x, A * prms * std::pow(10.0, -(20 + 40 * r.unit()) / 20)); for (int j = 0; j < nh; ++j) x[e - nh + 1 + j] = cmplx_t{0, 0}; }
-            for (int j = 0; j < nh; ++j) {
-                const cmplx_t v = p0[j] * rot;
-                x[e - nh + 1 + j].re += A * v.re;
-                x[e - nh + 1 + j].im += A * v.im;
-            }
+            const arr_cmplx x = build_stream(r, p0, A, n, e, r.range(0, 3), bg);
             std::vector<double> thrs = {0.3 + 0.6 * r.unit()};
-            thrs.push_back((q % 3 == 0) ? 0.3 : ((q % 3 == 1) ? 0.9 : 0.5));
+            // the documented ends of the threshold range, exactly and one ulp inside
+            switch (q % 5) {
+            case 0: thrs.push_back(0.3); break;
+            case 1: thrs.push_back(0.9); break;
+            case 2: thrs.push_back(0.5); break;
+            case 3: thrs.push_back(std::nextafter(0.3, 1.0)); break;
+            default: thrs.push_back(std::nextafter(0.9, 0.0)); break;
+            }
             out.stat(std::string("det_preamble_") + PK[pkind]);
             out.stat("det_background_" + bg);
-            detector_stream(r, p, pkind, x, e, thrs, F, corr_budget, bg);
+            detector_stream(r, p, pkind, x, e, thrs, F, g_det_corr, corr_budget, bg);
             // a stream WITHOUT the preamble: silence / white noise of some amplitude / the same traffic with the preamble removed
             if (q % 2 == 0) {
                 arr_cmplx y(n);
@@ -668,7 +847,22 @@ static void run_detector_all(vh::Rng& r) {
                 else if (nm == 2) { nb = "stream-with-preamble-removed"; y = x; for (int j = 0; j < nh; ++j) y[e - nh + 1 + j] = cmplx_t{0, 0}; }
                 else if (nm == 3) { nb = "white-noise-bursts"; add_noise(r, y, A); const int a = r.range(0, n - 1), b = r.range(0, n - 1); for (int i = std::min(a, b); i < std::max(a, b); ++i) y[i] = cmplx_t{0, 0}; }
                 out.stat("det_absent_" + nb);
-                detector_stream(r, p, pkind, y, -1, thrs, F, corr_budget, nb);
+                detector_stream(r, p, pkind, y, -1, thrs, F, g_det_corr, corr_budget, nb);
+            }
+            // amplitude SCALE CLASSES, independently for the reference coefficients and for the stream
+            if (q % 4 == 1 || (THOROUGH && q % 2 == 1)) {
+                const bool extreme = r.range(0, 5) == 0;
+                ScaleClass cp = PG_CLASSES[r.range(0, 9)], ca = A_CLASSES[r.range(0, 13)];
+                if (extreme) { if (r.coin()) cp = PG_CLASSES[r.range(10, 13)]; else ca = A_CLASSES[r.range(14, 15)]; }
+                const arr_cmplx ps = scaled(p0, cp.v);
+                std::string sbg;
+                const int sb = r.range(0, 5);
+                const arr_cmplx xs = build_stream(r, p0, ca.v, n, e, sb >= 4 ? 4 : sb, sbg);
+                const std::string note = std::string("coefficients*") + cp.name + " stream*" + ca.name;
+                out.stat(std::string("det_scale_coeff_") + cp.name);
+                out.stat(std::string("det_scale_stream_") + ca.name);
+                const std::vector<double> st = {thrs[0], 0.5};
+                detector_stream(r, ps, pkind, xs, e, st, F, g_scale_corr, THOROUGH ? 500 : 160, sbg, cp.regime == 2 || ca.regime == 2, note);
             }
         }
     };
@@ -687,6 +881,600 @@ static void run_detector_all(vh::Rng& r) {
     }
 }
 
+// ================================================================== F. detector call HISTORIES: scripts of process / rejected process / empty process / reset
+// (CORR tag det2; the stream is either explicit (X) or described by a generator both sides evaluate exactly (G))
+struct BgSpec {
+    int kind = 0;        // 0: +0 silence, 1: uniform noise in [-2^k, 2^k) per component, 2: -0 silence
+    uint64_t seed = 0;
+    int k = 0;
+};
+static inline uint64_t mix64(uint64_t z) {
+    z = (z ^ (z >> 30)) * 0xbf58476d1ce4e5b9ULL;
+    z = (z ^ (z >> 27)) * 0x94d049bb133111ebULL;
+    return z ^ (z >> 31);
+}
+static inline double bg_val(const BgSpec& b, uint64_t idx) {   // exact in double: (53-bit integer - 2^52) * 2^(k-52)
+    if (b.kind == 0) return 0.0;
+    if (b.kind == 2) return -0.0;
+    const uint64_t z = mix64(b.seed + (idx + 1) * 0x9e3779b97f4a7c15ULL);
+    return std::ldexp((double)(z >> 11) - 4503599627370496.0, b.k - 52);
+}
+static void fill_bg(const BgSpec& b, std::vector<cmplx_t>& x, long n) {
+    x.resize(n);
+    for (long i = 0; i < n; ++i) x[i] = cmplx_t{bg_val(b, 2 * (uint64_t)i), bg_val(b, 2 * (uint64_t)i + 1)};
+}
+static std::string bg_json(const BgSpec& b) {
+    return "{" + jstr("kind", b.kind == 0 ? "\"silence\"" : b.kind == 2 ? "\"negative-zero-silence\"" : "\"uniform-noise\"") + jstr("seed", "\"" + std::to_string(b.seed) + "\"") + jstr("log2_amplitude", I(b.k), true) + "}";
+}
+static std::string rle_ops(const std::vector<int>& ops) {   // "nrun (cnt L)*"
+    std::string s;
+    long nrun = 0;
+    for (size_t i = 0; i < ops.size();) {
+        size_t j = i;
+        while (j < ops.size() && ops[j] == ops[i]) ++j;
+        s += " " + I((long long)(j - i)) + " " + I(ops[i]);
+        ++nrun;
+        i = j;
+    }
+    return I(nrun) + s;
+}
+struct Insertion { long e; arr_cmplx v; };   // final values of the nh samples ending at e
+static std::string det2_lhs_X(const arr_cmplx& p, double thr, const cmplx_t* x, long n, const std::vector<int>& ops) {
+    return "det2 " + vh::hx(thr) + " " + vh::hxs(p) + " X " + vh::hxs(arr_cmplx(x, (size_t)n)) + " " + rle_ops(ops);
+}
+static std::string det2_lhs_G(const arr_cmplx& p, double thr, const BgSpec& b, long n, const std::vector<Insertion>& ins, const std::vector<int>& ops) {
+    std::string s = "det2 " + vh::hx(thr) + " " + vh::hxs(p) + " G " + I(b.kind) + " " + std::to_string(b.seed) + " " + I(b.k) + " " + I(n) + " " + I((long long)ins.size());
+    for (const Insertion& in : ins) s += " " + I(in.e) + " " + vh::hxs(in.v);
+    return s + " " + rle_ops(ops);
+}
+
+struct ScriptRun {
+    int frame_len = 0;
+    std::vector<int> cstart, clen, cop;          // valid process calls since the last reset: start in the effective stream, length, op index
+    std::vector<int> det_call;                   // live detections: index into cstart
+    std::vector<PreambleDetector::Result> res;
+    std::vector<cmplx_t> eff;                    // the effective stream (samples of the valid calls since the last reset), when asked for
+    long long n_err = 0, n_reset = 0, n_det_total = 0, n_calls = 0;
+    std::string rhs;
+};
+// ops: L > 0 process the next L samples of x (a length that is not a multiple of frame_len() must throw and leave no trace), 0: process an empty array, -1: reset()
+static ScriptRun run_script(const arr_cmplx& p, double thr, const cmplx_t* x, long n, const std::vector<int>& ops, const std::string& js, bool want_rhs, bool keep_eff,
+                            bool via_operator = false) {
+    ScriptRun d;
+    vh::set_current("C18:detector-crash", js);
+    vh::watch(600);
+    PreambleDetector det(p, thr);
+    d.frame_len = det.frame_len();
+    if (want_rhs) d.rhs = I(d.frame_len);
+    long pos = 0, effpos = 0;
+    for (size_t k = 0; k < ops.size(); ++k) {
+        const int L = ops[k];
+        if (L < 0) {
+            det.reset();
+            ++d.n_reset;
+            d.cstart.clear(); d.clen.clear(); d.cop.clear(); d.det_call.clear(); d.res.clear(); d.eff.clear();
+            effpos = 0;
+            continue;
+        }
+        if (pos + L > n) { out.fail("C18:harness-internal", js); break; }
+        const arr_cmplx fr(x + pos, (size_t)L);
+        pos += L;
+        std::optional<PreambleDetector::Result> rr;
+        bool threw = false;
+        try {
+            rr = via_operator ? det(fr) : det.process(fr);
+        } catch (const std::exception&) { threw = true; }
+        ++d.n_calls;
+        const bool must_throw = (L % d.frame_len) != 0;
+        if (threw != must_throw) out.fail("C18:detector-framelen", js);
+        if (threw) {
+            ++d.n_err;
+            if (want_rhs) d.rhs += " " + I((long long)k) + " ERR";
+            continue;
+        }
+        d.cstart.push_back((int)effpos);
+        d.clen.push_back(L);
+        d.cop.push_back((int)k);
+        if (keep_eff) d.eff.insert(d.eff.end(), x + pos - L, x + pos);
+        effpos += L;
+        if (rr.has_value()) {
+            ++d.n_det_total;
+            d.det_call.push_back((int)d.cstart.size() - 1);
+            d.res.push_back(*rr);
+            if (want_rhs) d.rhs += " " + I((long long)k) + " D " + I(rr->offset) + " " + vh::hx(rr->score) + " " + vh::hxs(rr->preamble);
+        }
+    }
+    if (want_rhs) d.rhs += " END " + I((long long)ops.size());
+    vh::unwatch();
+    vh::clear_current();
+    return d;
+}
+
+// max over every misaligned position of the noiseless normalised metric of p against itself on silence (scale free); aligned value is 1
+static ld sidelobe_of(const arr_cmplx& p) {
+    const int nh = p.size();
+    std::vector<cmplx_t> x(3 * nh, cmplx_t{0, 0});
+    for (int j = 0; j < nh; ++j) x[nh + j] = p[j];
+    const std::vector<ld> M = ref_metric(scaled(p, 1.0), x.data(), 3 * nh);
+    ld s = 0;
+    for (int t = 0; t < 3 * nh; ++t)
+        if (t != 2 * nh - 1) s = std::max(s, M[t]);
+    return s;
+}
+// a preamble of the family with a threshold in [0.3, 0.9] above its own partial-overlap sidelobes (the property's "single-sample autocorrelation peak")
+static arr_cmplx preamble_with_threshold(vh::Rng& r, int nh, int& pkind, double& thr) {
+    for (int tries = 0;; ++tries) {
+        arr_cmplx p0 = gen_preamble(r, nh, pkind);
+        const double lo = std::max(0.3, 1.08 * (double)sqrtl(sidelobe_of(p0)) + 0.01);
+        if (lo < 0.88) { thr = lo + (0.9 - lo) * r.unit() * r.unit(); return p0; }
+        if (tries % 4 == 3) pkind = r.range(0, NPK - 1);
+        out.stat("det_history_preamble_regenerated_sidelobes_too_high");
+    }
+}
+
+static void script_cases(vh::Rng& r) {
+    const std::vector<int> lens = THOROUGH ? std::vector<int>{16, 17, 31, 32, 33, 63, 64, 100, 127, 128, 255, 256, 511, 512} : std::vector<int>{16, 31, 64, 100, 256};
+    const int reps = THOROUGH ? 6 : 2;
+    for (int nh : lens)
+        for (int rep = 0; rep < reps; ++rep) {
+            const int F = frame_len_of(nh);
+            int pkind = r.range(0, NPK - 1);
+            double thr;
+            const arr_cmplx p0 = preamble_with_threshold(r, nh, pkind, thr);
+            const arr_cmplx p = scaled(p0, std::pow(10.0, r.range(-2, 2) * 0.5));
+            const int K = 3;
+            // the base stream B: the preamble straddles a frame boundary two times out of three
+            const int q = (rep % 3 == 2) ? r.range(nh - 1, F - 1) : r.range(0, nh - 2);
+            const int f = r.range(1, K - 1);
+            const int e = f * F + q;
+            const double A = std::pow(10.0, -2.0 + 3.0 * r.unit());
+            std::string bg;
+            const arr_cmplx B = build_stream(r, p0, A, K * F, e, r.coin() ? 0 : 1, bg);
+            std::vector<ld> PW;
+            const std::vector<ld> M = ref_metric(p, B, &PW);
+            const ld t2 = (ld)thr * thr;
+            bool in_hyp = M[e] > t2 * (1 + 1e-3L);
+            for (int t = 0; t < K * F; ++t)
+                if (t != e && M[t] >= t2 * (1 - 1e-3L)) in_hyp = false;
+            if (!in_hyp) { out.stat("det_history_base_stream_outside_hypothesis"); continue; }
+            // reference run: a fresh detector on B, single frames
+            const std::vector<int> base_ops(K, F);
+            const std::string jb = "{" + jstr("fn", "\"PreambleDetector\"") + jstr("case", "\"history-base\"") + jstr("preamble", std::string("\"") + PK[pkind] + "\"") + jstr("nh", I(nh)) +
+                                   jstr("threshold", vh::jnum(thr)) + jstr("end_index", I(e), true) + "}";
+            const ScriptRun twin = run_script(p, thr, B.data(), B.size(), base_ops, jb, false, false);
+            // junk material: noise at the stream's level, a full copy of the preamble, the head of the preamble
+            auto junk = [&](int L, int kind) {
+                std::vector<cmplx_t> j(L, cmplx_t{0, 0});
+                if (kind >= 1) for (int i = 0; i < L; ++i) j[i] = cmplx_t{A * 0.01 * r.gauss(), A * 0.01 * r.gauss()};
+                if (kind == 2 && L >= nh) { const int s = r.range(0, L - nh); for (int i = 0; i < nh; ++i) j[s + i] = cmplx_t{A * p0[i].re, A * p0[i].im}; }
+                if (kind == 3) { const int h = std::min(L, std::max(1, nh / 2)); for (int i = 0; i < h; ++i) j[L - h + i] = cmplx_t{A * p0[i].re, A * p0[i].im}; }   // ends with the head of a preamble
+                return j;
+            };
+            const std::vector<int> bad = {1, F - 1, F + 1, 2 * F + 1, nh, 3 * F - 1, 7 * F + 3, (1 << 16) + ((1 << 16) % F == 0 ? 1 : 0)};
+            struct Scn { std::string name; std::vector<cmplx_t> x; std::vector<int> ops; bool has_reset; bool via_op; };
+            std::vector<Scn> scns;
+            auto app = [](std::vector<cmplx_t>& x, const std::vector<cmplx_t>& y) { x.insert(x.end(), y.begin(), y.end()); };
+            auto appB = [&](std::vector<cmplx_t>& x, int from_frame, int to_frame) { x.insert(x.end(), B.data() + from_frame * F, B.data() + to_frame * F); };
+            {   // a rejected call before the first frame
+                Scn s{"reject-first", {}, {}, false, false};
+                const int L = bad[r.range(0, 6)];
+                app(s.x, junk(L, r.range(1, 2)));
+                s.ops.push_back(L);
+                appB(s.x, 0, K);
+                for (int k = 0; k < K; ++k) s.ops.push_back(F);
+                scns.push_back(s);
+            }
+            {   // a rejected call between the frame where the preamble starts and the frame where it completes
+                Scn s{"reject-before-completion-frame", {}, {}, false, true};
+                appB(s.x, 0, f);
+                for (int k = 0; k < f; ++k) s.ops.push_back(F);
+                const int L = bad[r.range(0, 6)];
+                app(s.x, junk(L, r.range(1, 3)));
+                s.ops.push_back(L);
+                appB(s.x, f, K);
+                for (int k = f; k < K; ++k) s.ops.push_back(F);
+                scns.push_back(s);
+            }
+            {   // rejected and empty calls everywhere
+                Scn s{"rejects-and-empty-calls-between-all-frames", {}, {}, false, false};
+                for (int k = 0; k < K; ++k) {
+                    const int nb = r.range(1, 3);
+                    for (int b = 0; b < nb; ++b) {
+                        if (r.range(0, 2) == 0) { s.ops.push_back(0); continue; }
+                        const int L = bad[r.range(0, 6)];
+                        app(s.x, junk(L, r.range(0, 3)));
+                        s.ops.push_back(L);
+                    }
+                    appB(s.x, k, k + 1);
+                    s.ops.push_back(F);
+                }
+                s.ops.push_back(0);
+                scns.push_back(s);
+            }
+            if (rep == 0 && (nh == 16 || THOROUGH)) {   // a rejected call of more than 2^16 samples
+                Scn s{"reject-huge", {}, {}, false, false};
+                appB(s.x, 0, f);
+                for (int k = 0; k < f; ++k) s.ops.push_back(F);
+                const int L = bad[7];
+                app(s.x, junk(L, 2));
+                s.ops.push_back(L);
+                appB(s.x, f, K);
+                for (int k = f; k < K; ++k) s.ops.push_back(F);
+                scns.push_back(s);
+            }
+            {   // other material, reset(), then the stream
+                Scn s{"reset-after-junk", {}, {}, true, false};
+                const int kj = r.range(1, 4);
+                app(s.x, junk(kj * F, r.range(1, 3)));
+                for (int k = 0; k < kj; ++k) s.ops.push_back(F);
+                s.ops.push_back(-1);
+                appB(s.x, 0, K);
+                for (int k = 0; k < K; ++k) s.ops.push_back(F);
+                scns.push_back(s);
+            }
+            {   // the stream itself up to and including its detection, reset(), the stream again (reuse after a report)
+                Scn s{"reset-after-detection-and-reuse", {}, {}, true, true};
+                appB(s.x, 0, f + 1);
+                for (int k = 0; k <= f; ++k) s.ops.push_back(F);
+                s.ops.push_back(-1);
+                appB(s.x, 0, K);
+                for (int k = 0; k < K; ++k) s.ops.push_back(F);
+                scns.push_back(s);
+            }
+            if (q < nh - 1) {   // the frame with the head of the preamble, reset(), then the stream (the half-received preamble must be forgotten)
+                Scn s{"reset-in-the-middle-of-a-preamble", {}, {}, true, false};
+                appB(s.x, 0, f);
+                for (int k = 0; k < f; ++k) s.ops.push_back(F);
+                s.ops.push_back(-1);
+                appB(s.x, 0, K);
+                for (int k = 0; k < K; ++k) s.ops.push_back(F);
+                scns.push_back(s);
+            }
+            {   // reset() of a fresh detector, double reset, rejected calls around the reset
+                Scn s{"fresh-reset-rejects-double-reset", {}, {}, true, false};
+                s.ops.push_back(-1);
+                int L = bad[r.range(0, 6)];
+                app(s.x, junk(L, 2));
+                s.ops.push_back(L);
+                app(s.x, junk(2 * F, 3));
+                s.ops.push_back(2 * F);
+                s.ops.push_back(-1);
+                s.ops.push_back(-1);
+                L = bad[r.range(0, 6)];
+                app(s.x, junk(L, 1));
+                s.ops.push_back(L);
+                appB(s.x, 0, K);
+                for (int k = 0; k < K; ++k) s.ops.push_back(F);
+                scns.push_back(s);
+            }
+            for (const Scn& s : scns) {
+                const std::string js = "{" + jstr("fn", "\"PreambleDetector\"") + jstr("case", "\"history:" + s.name + "\"") + jstr("preamble", std::string("\"") + PK[pkind] + "\"") + jstr("nh", I(nh)) +
+                                       jstr("threshold", vh::jnum(thr)) + jstr("frame_len", I(F)) + jstr("end_index_in_stream", I(e)) + jstr("background", "\"" + bg + "\"") +
+                                       jstr("ops_runlength", "\"" + rle_ops(s.ops) + "\"") + (nh <= 32 && s.x.size() < 400 ? jstr("p", vh::jarr(p)) + jstr("x", vh::jarr(arr_cmplx(s.x.data(), s.x.size()))) : std::string()) +
+                                       jstr("ops_note", "\"L>0: process the next L samples, 0: empty call, -1: reset()\"", true) + "}";
+                const bool corr = s.x.size() < 5000 || s.name == "reject-huge";
+                const ScriptRun d = run_script(p, thr, s.x.data(), s.x.size(), s.ops, js, corr, true, s.via_op);
+                if (corr) out.corr(det2_lhs_X(p, thr, s.x.data(), s.x.size(), s.ops), d.rhs);
+                out.stat("det_history_" + s.name);
+                out.stat("det_history_rejected_calls", d.n_err);
+                out.stat("det_history_resets", d.n_reset);
+                ++out.n_oracle;
+                // the effective stream must be B
+                bool eff_ok = (int)d.eff.size() == B.size();
+                for (int i = 0; eff_ok && i < B.size(); ++i) eff_ok = bits_same(d.eff[i], B[i]);
+                if (!eff_ok) { out.fail("C18:harness-internal", js); continue; }
+                judge_single(js, nh, thr, B.data() + (e - nh + 1), e, M[e], PW[e], d.cstart, d.clen, d.det_call, d.res, "C18:detector-history-");
+                // differential twin: a fresh detector that saw only the valid frames (bit-exact; after reset() the score to 1e-9)
+                bool same_as_twin = d.res.size() == twin.res.size() && d.det_call.size() == twin.det_call.size();
+                for (size_t i = 0; same_as_twin && i < d.det_call.size(); ++i) same_as_twin = d.cstart[d.det_call[i]] == twin.cstart[twin.det_call[i]];
+                for (size_t i = 0; same_as_twin && i < d.res.size(); ++i) {
+                    same_as_twin = d.res[i].offset == twin.res[i].offset && d.res[i].preamble.size() == twin.res[i].preamble.size();
+                    for (int j = 0; same_as_twin && j < d.res[i].preamble.size(); ++j) same_as_twin = bits_same(d.res[i].preamble[j], twin.res[i].preamble[j]);
+                    if (same_as_twin) same_as_twin = s.has_reset ? std::fabs(d.res[i].score - twin.res[i].score) <= 1e-9 * twin.res[i].score : d.res[i].score == twin.res[i].score;
+                }
+                if (!same_as_twin) out.fail(s.has_reset ? "C18:detector-history-reset-differs-from-fresh" : "C18:detector-history-failed-call-left-a-trace", js);
+            }
+        }
+}
+
+// ================================================================== G. LONG streams through one detector
+// one preamble after about N samples of history, the preamble end at EVERY sample position in a window of W frames on both sides of N
+// (N = 2^16, 2^17, 2^18, 3*2^14, ...: any internal buffer / counter boundary at or near N is crossed with every alignment of the preamble),
+// checking offset, score and every returned sample.  Framing modes: single frames; the history in ONE call (> 2^16 / 2^17 samples);
+// everything in one call; calls of 1..3 frames; small calls first and then a giant call that contains the preamble.
+static long long g_long_corr = 0;
+static void long_sweep(vh::Rng& r, int nh, int pkind_in, long N, int W, int bgmode, int stride, int extra_mode_every, int corr_cases) {
+    const int F = frame_len_of(nh);
+    int pkind = pkind_in;
+    double thr;
+    const arr_cmplx p0 = preamble_with_threshold(r, nh, pkind, thr);
+    static const double gains[] = {1.0, 0.1, 10.0, 0x1p-20, 1e8};
+    const arr_cmplx p = scaled(p0, gains[r.range(0, 4)]);
+    static const double amps[] = {1.0, 0.03125, 32.0, 0.0173, 7.3, 1e3, 1e-3, 1e8, 0x1p40};   // the last two only over a noise background (conditioning, see detector_stream)
+    const double A = amps[r.range(0, bgmode == 3 ? 8 : 6)];
+    const double prms = rms_of(p0);
+    BgSpec b;
+    b.seed = r.next();
+    const int lg = (int)std::floor(std::log2(A * prms));
+    switch (bgmode) {
+    case 0: b.kind = 0; break;
+    case 1: b.kind = 2; break;
+    case 2: b.kind = 1; b.k = -1030 - r.range(0, 30); break;     // a floor of denormals: |x|^2 = 0 exactly but every history sample is distinct
+    case 3: b.kind = 1; b.k = lg - 6 - r.range(0, 3); break;     // uniform noise 38..56 dB below the preamble (needs a long preamble / high threshold: decided below)
+    default: b.kind = 1; b.k = -1040; break;                     // denormal floor
+    }
+    const long e_lo = N - (long)W * F, e_hi = N + (long)W * F + nh;
+    const long n_max = (e_hi / F + 2) * F;
+    if (bgmode == 3) {   // white noise of n_max samples stays below thr^2 with probability > 0.999 when exp(-thr^2 nh) n_max < 1e-3
+        const double need = std::sqrt(std::log(n_max * 1e3) / nh) + 0.02;
+        if (need > 0.88) { b.kind = 1; b.k = -1035; out.stat("det_long_noise_background_replaced_preamble_too_short"); }
+        else if (thr < need) thr = need + (0.9 - need) * r.unit();
+    }
+    std::vector<cmplx_t> x;
+    fill_bg(b, x, n_max);
+    // the background alone must stay below the threshold everywhere
+    ld max_bg = 0;
+    if (b.kind == 1) {
+        const std::vector<ld> Mb = ref_metric(p, x.data(), (int)n_max);
+        for (ld v : Mb) max_bg = std::max(max_bg, v);
+    }
+    const ld t2 = (ld)thr * thr;
+    const std::string tagN = "N" + I(N);
+    if (!(max_bg < t2 * (1 - 1e-3L))) { out.stat("det_long_sweep_background_crosses_threshold_skipped"); return; }
+    out.stat("det_long_sweeps");
+    out.stat("det_long_sweeps_" + tagN);
+    out.stat(std::string("det_long_kind_") + PK[pkind]);
+    const double ph = 6.283185307179586 * r.unit();
+    const cmplx_t rot{std::cos(ph), std::sin(ph)};
+    int count = 0, sweep_corr = 0;
+    for (long e = e_lo; e <= e_hi; e += stride) {
+        ++count;
+        const long s0 = e - nh + 1;
+        const long n_e = (e / F + 2) * F;
+        // insert (additively), remember the background to restore it afterwards
+        std::vector<cmplx_t> saved(x.begin() + s0, x.begin() + s0 + nh);
+        Insertion ins{e, arr_cmplx(nh)};
+        for (int j = 0; j < nh; ++j) {
+            const cmplx_t v = p0[j] * rot;
+            x[s0 + j].re += A * v.re;
+            x[s0 + j].im += A * v.im;
+            ins.v[j] = x[s0 + j];
+        }
+        // hypothesis near the preamble: every window that overlaps it
+        const long c0 = s0 - (nh - 1), c1 = std::min(n_e - 1, e + nh - 1);
+        std::vector<ld> PWl;
+        const std::vector<ld> Ml = ref_metric(p, x.data() + c0, (int)(c1 - c0 + 1), &PWl);
+        bool in_hyp = Ml[e - c0] > t2 * (1 + 1e-3L);
+        for (long t = s0; t <= c1; ++t)
+            if (t != e && Ml[t - c0] >= t2 * (1 - 1e-3L)) in_hyp = false;
+        std::vector<int> modes = {0};
+        if (extra_mode_every > 0 && count % extra_mode_every == 0) modes.push_back(1 + (count / extra_mode_every) % 5);
+        for (int mode : modes) {
+            std::vector<int> ops;
+            const long nfr = n_e / F, fe = e / F, fs = s0 / F;
+            if (mode == 0) ops.assign(nfr, F);
+            else if (mode == 1) { ops.push_back((int)((fs - 1) * F)); for (long k = fs - 1; k < nfr; ++k) ops.push_back(F); }                 // the whole history in ONE call, then single frames
+            else if (mode == 2) ops.push_back((int)n_e);                                                                               // everything in one call: offset = e
+            else if (mode == 3) { long left = nfr; while (left > 0) { const int c = (int)std::min<long>(left, r.range(1, 3)); ops.push_back(c * F); left -= c; } }
+            else if (mode == 4) { const long h = fe / 2; for (long k = 0; k < h; ++k) ops.push_back(F); ops.push_back((int)((nfr - h) * F)); }   // small calls, then a giant call with the preamble inside
+            else { for (int k = 0; k < 3; ++k) ops.push_back(F); ops.push_back((int)((fs - 4) * F)); for (long k = fs - 1; k < nfr; ++k) ops.push_back(F); }   // small, then a giant history call, then single frames
+            const std::string js = "{" + jstr("fn", "\"PreambleDetector\"") + jstr("case", "\"long-stream\"") + jstr("preamble", std::string("\"") + PK[pkind] + "\"") + jstr("nh", I(nh)) +
+                                   jstr("threshold", vh::jnum(thr)) + jstr("frame_len", I(F)) + jstr("end_index", I(e)) + jstr("end_mod_frame", I(e % F)) + jstr("history_target", I(N)) +
+                                   jstr("framing_mode", I(mode)) + jstr("ops_runlength", "\"" + rle_ops(ops) + "\"") + jstr("background", bg_json(b)) + jstr("amplitude", vh::jnum(A)) +
+                                   jstr("phase", vh::jnum(ph)) + (nh <= 64 ? jstr("p", vh::jarr(p)) + jstr("inserted_samples", vh::jarr(ins.v)) : std::string()) + jstr("stream_len", I(n_e), true) + "}";
+            const bool corr = sweep_corr < corr_cases && in_hyp && (mode != 0 || count % 9 == 2);
+            const ScriptRun d = run_script(p, thr, x.data(), n_e, ops, js, corr, false, mode == 3);
+            if (corr) { ++g_long_corr; ++sweep_corr; out.corr(det2_lhs_G(p, thr, b, n_e, {ins}, ops), d.rhs); }
+            out.stat("det_long_streams");
+            out.stat("det_long_calls", d.n_calls);
+            out.stat("det_long_framing_mode_" + I(mode));
+            if (!in_hyp) { out.stat("det_long_outside_hypothesis"); continue; }
+            ++out.n_oracle;
+            out.stat((e % F) < nh - 1 ? "det_long_straddles_frame_boundary" : "det_long_inside_one_frame");
+            judge_single(js, nh, thr, x.data() + s0, (int)e, Ml[e - c0], PWl[e - c0], d.cstart, d.clen, d.det_call, d.res, "C18:detector-long-");
+        }
+        for (int j = 0; j < nh; ++j) x[s0 + j] = saved[j];
+    }
+}
+
+// SOAK (beyond the single-preamble clause, justified by T18.4 "for every state and every call"): a stream of `total` samples with a preamble every
+// P = 2 F + 1 samples (each starts in a later frame than the one where the previous report happened, so the early return of process() cannot
+// touch it), amplitude and phase different from copy to copy, fed frame by frame through ONE detector: every frame index up to total / F
+// receives a preamble, and over the P start phases every (frame index, end offset) pair is visited.
+static void soak(vh::Rng& r, int nh, int pkind_in, long total, int phase_lo, int phase_hi, int bgmode, bool corr_first) {
+    const int F = frame_len_of(nh), P = 2 * F + 1;
+    int pkind = pkind_in;
+    double thr;
+    const arr_cmplx p0 = preamble_with_threshold(r, nh, pkind, thr);
+    const arr_cmplx p = scaled(p0, r.coin() ? 1.0 : 0x1p-3);
+    const ld t2 = (ld)thr * thr;
+    const long nfr = total / F + 2, n = nfr * F;
+    BgSpec b;
+    b.seed = r.next();
+    b.kind = bgmode == 0 ? 0 : (bgmode == 1 ? 2 : 1);
+    b.k = -1035;   // denormal floor: |x|^2 = 0 exactly, every history sample distinct
+    std::vector<cmplx_t> bgv;
+    fill_bg(b, bgv, n);
+    if (b.kind == 1) {
+        ld mx = 0;
+        const std::vector<ld> Mb = ref_metric(p, bgv.data(), (int)n);
+        for (ld v : Mb) mx = std::max(mx, v);
+        if (!(mx < t2 * (1 - 1e-3L))) { out.stat("det_soak_background_crosses_threshold_skipped"); return; }
+    }
+    static const double amps[] = {1.0, 0.5, 2.0};
+    for (int phase = phase_lo; phase <= phase_hi; ++phase) {
+        std::vector<cmplx_t> x = bgv;
+        std::vector<long> ends;
+        std::vector<Insertion> inss;
+        std::vector<char> hyp;
+        std::vector<ld> Me, PWe;
+        const bool corr = corr_first && phase == phase_lo;
+        for (long k = 0;; ++k) {
+            const long e = (long)F + nh - 1 + phase + k * P;
+            if (e + nh >= n - F) break;
+            const long s0 = e - nh + 1;
+            const double ph = 2.399963229728653 * k, Ak = amps[k % 3];
+            const cmplx_t rot{std::cos(ph), std::sin(ph)};
+            for (int j = 0; j < nh; ++j) { const cmplx_t v = p0[j] * rot; x[s0 + j].re += Ak * v.re; x[s0 + j].im += Ak * v.im; }
+            ends.push_back(e);
+            if (corr) { Insertion in{e, arr_cmplx(nh)}; for (int j = 0; j < nh; ++j) in.v[j] = x[s0 + j]; inss.push_back(in); }
+        }
+        for (long e : ends) {   // windows overlapping copy k do not overlap its neighbours (P > 2 nh)
+            const long s0 = e - nh + 1, c0 = s0 - (nh - 1), c1 = e + nh - 1;
+            std::vector<ld> PWl;
+            const std::vector<ld> Ml = ref_metric(p, x.data() + c0, (int)(c1 - c0 + 1), &PWl);
+            bool ok = Ml[e - c0] > t2 * (1 + 1e-3L);
+            for (long t = s0; t <= c1; ++t)
+                if (t != e && Ml[t - c0] >= t2 * (1 - 1e-3L)) ok = false;
+            hyp.push_back(ok);
+            Me.push_back(Ml[e - c0]);
+            PWe.push_back(PWl[e - c0]);
+        }
+        const std::string js0 = jstr("fn", "\"PreambleDetector\"") + jstr("case", "\"soak: a preamble every 2*frame_len+1 samples, single frames\"") + jstr("preamble", std::string("\"") + PK[pkind] + "\"") +
+                                jstr("nh", I(nh)) + jstr("threshold", vh::jnum(thr)) + jstr("frame_len", I(F)) + jstr("first_end_index", I(F + nh - 1 + phase)) + jstr("period", I(P)) +
+                                jstr("background", bg_json(b)) + jstr("copy_k_amplitude", "\"1, 0.5, 2 cyclic\"") + jstr("copy_k_phase_rad", "\"2.399963229728653*k\"") +
+                                (nh <= 64 ? jstr("p", vh::jarr(p)) : std::string()) + jstr("stream_len", I(n));
+        if (corr) {
+            const std::vector<int> ops(nfr, F);
+            const ScriptRun d = run_script(p, thr, x.data(), n, ops, "{" + js0 + jstr("note", "\"corr run\"", true) + "}", true, false);
+            out.corr(det2_lhs_G(p, thr, b, n, inss, ops), d.rhs);
+        }
+        vh::set_current("C18:detector-crash", "{" + js0 + jstr("note", "\"in flight\"", true) + "}");
+        vh::watch(600);
+        PreambleDetector det(p, thr);
+        size_t next = 0;
+        out.stat("det_soak_streams");
+        for (long c = 0; c < nfr; ++c) {
+            const arr_cmplx fr(x.data() + c * F, (size_t)F);
+            const auto rr = det.process(fr);
+            while (next < ends.size() && ends[next] < c * F) ++next;
+            const bool expect = next < ends.size() && ends[next] < (c + 1) * F;
+            if (expect && !hyp[next]) { out.stat("det_soak_copy_outside_hypothesis"); continue; }
+            auto wit = [&](const char* what) {
+                return "{" + js0 + jstr("frame_index", I(c)) + jstr("samples_before_this_frame", I(c * F)) + jstr("expected_offset", expect ? I(ends[next] - c * F) : std::string("null")) +
+                       jstr("got", rr.has_value() ? "{\"offset\":" + I(rr->offset) + ",\"score\":" + vh::jnum(rr->score) + "}" : std::string("null")) + jstr("violation", std::string("\"") + what + "\"", true) + "}";
+            };
+            if (!expect) {
+                if (rr.has_value()) out.fail("C18:detector-soak-false", wit("report in a frame where no preamble completes"));
+                continue;
+            }
+            ++out.n_oracle;
+            out.stat("det_soak_preambles");
+            const long e = ends[next], s0 = e - nh + 1;
+            if (!rr.has_value()) { out.fail("C18:detector-soak-missed", wit("no report")); continue; }
+            if (rr->offset != e - c * F) { out.fail("C18:detector-soak-offset", wit("offset")); continue; }
+            bool pre_ok = rr->preamble.size() == nh;
+            for (int j = 0; pre_ok && j < nh; ++j) pre_ok = bits_same(rr->preamble[j], x[s0 + j]);
+            if (!pre_ok) out.fail("C18:detector-soak-preamble", wit("returned samples differ from the aligned stream samples"));
+            const ld sref = sqrtl(Me[next]);
+            if (!(rr->score >= thr) || !(fabsl((ld)rr->score - sref) <= SCORE_REL_TOL * sref) || (PWe[next] >= 1e3L * EPSD && !(std::fabs(rr->score - 1.0) <= 0.05)))
+                out.fail("C18:detector-soak-score", wit("score"));
+        }
+        vh::unwatch();
+        vh::clear_current();
+    }
+}
+
+static void run_long(vh::Rng& r) {
+    if (!THOROUGH) {
+        // quick: nh = 16 (frame 17) dense around 2^16 with all framing modes, coarser around 2^17 and 2^18; nh = 63 (frame 66) with noise around 2^16;
+        // a denormal floor (slow arithmetic) only on a coarse sweep
+        long_sweep(r, 16, r.range(0, NPK - 1), 1L << 16, 3, r.range(0, 1), 1, 6, 12);
+        long_sweep(r, 16, r.range(4, NPK - 1), 1L << 17, 2, r.range(0, 1), 1, 9, 4);
+        long_sweep(r, 17, r.range(0, NPK - 1), 1L << 18, 1, r.range(0, 1), 1, 0, 1);
+        long_sweep(r, 63, r.range(0, NPK - 1), 1L << 16, 1, 3, 1, 25, 3);
+        long_sweep(r, 32, r.range(0, NPK - 1), 3L << 14, 1, 4, 5, 0, 1);
+        soak(r, 16, r.range(0, NPK - 1), (1L << 17) + 4096, 0, 34, r.range(0, 1), false);
+        soak(r, 16, r.range(0, NPK - 1), (1L << 16) + 2048, 3, 3, 2, true);
+    } else {
+        // backgrounds: silence / negative-zero silence (and noise for the long preambles); denormal floors (slow arithmetic) on two coarse sweeps only
+        const long Ns[] = {3L << 14, 1L << 16, 3L << 15, 1L << 17, 3L << 16, 1L << 18};
+        for (long N : Ns) {
+            const bool pow2 = (N & (N - 1)) == 0;
+            for (int nh : {16, 17, 31, 32, 33}) long_sweep(r, nh, r.range(0, NPK - 1), N, 3, r.range(0, 1), 1, 5, N <= (1L << 17) ? 4 : 1);
+            for (int nh : {63, 64, 65, 100, 127, 128}) long_sweep(r, nh, r.range(0, NPK - 1), N, pow2 ? 2 : 1, r.coin() ? 3 : r.range(0, 1), 1, 7, N <= (1L << 16) ? 2 : 0);
+            if (pow2)
+                for (int nh : {255, 256, 511, 512}) long_sweep(r, nh, r.range(0, NPK - 1), N, 1, r.coin() ? 3 : r.range(0, 1), 3, 11, 0);
+        }
+        long_sweep(r, 16, r.range(0, NPK - 1), 1L << 19, 2, 0, 1, 5, 0);
+        long_sweep(r, 16, r.range(0, NPK - 1), 1L << 20, 1, 1, 1, 0, 0);
+        long_sweep(r, 16, r.range(0, NPK - 1), 1L << 16, 1, 2, 3, 4, 0);
+        long_sweep(r, 64, r.range(0, NPK - 1), 1L << 16, 1, 4, 7, 0, 0);
+        for (int nh : {16, 17, 31, 32}) { const int F = frame_len_of(nh); soak(r, nh, r.range(0, NPK - 1), (1L << 18) + 4096, 0, 2 * F, r.range(0, 1), false); }
+        soak(r, 16, r.range(0, NPK - 1), (1L << 20) + 4096, 0, 6, 0, false);
+        soak(r, 63, r.range(0, NPK - 1), (1L << 18) + 4096, 0, 132, 0, false);
+        soak(r, 16, r.range(0, NPK - 1), (1L << 16) + 2048, 3, 3, 2, true);
+    }
+    out.stat("det_long_corr_cases", g_long_corr);
+}
+
+// ================================================================== H. delay estimators: scale classes, temporaries, failed calls in the history
+static void run_estimator_extras(vh::Rng& r) {
+    // --- scale classes: both operands independently at absolute scales far from 1 (the estimators are scale invariant; |corr|^2 must stay finite: |log10(s1 s2)| <= 140)
+    static const double SC[] = {1e-100, 1e-17, 1e-8, 1.0, 1e8, 1e100, 0x1p-300, 0x1p300};
+    static const char* SCN[] = {"1e-100", "1e-17", "1e-8", "1", "1e8", "1e100", "2^-300", "2^300"};
+    const std::vector<int> lens = THOROUGH ? std::vector<int>{128, 129, 255, 256, 500, 1000, 1024, 4097, 5000} : std::vector<int>{128, 131, 256, 1000};
+    for (int n : lens)
+        for (int a = 0; a < 8; ++a)
+            for (int b = 0; b < 8; ++b) {
+                const double lg = std::log10(SC[a]) + std::log10(SC[b]);
+                if (std::fabs(lg) > 140) { out.stat("fd_scale_pair_skipped_corr_squared_not_finite"); continue; }
+                if (!THOROUGH && ((a * 8 + b + n) % 3) != 0) continue;
+                const int d = r.range(-(n / 4), n / 4);
+                const int wk = r.range(0, 2);
+                arr_real x = white_r(r, n, wk);
+                arr_real y = delayseq(x, d);
+                const bool noisy = r.coin();
+                if (noisy) add_noise(r, y, rms_of(x) * std::pow(10.0, -(30 + 30 * r.unit()) / 20));
+                const std::string what = std::string("scale x1*") + SCN[a] + " x2*" + SCN[b] + (noisy ? " noisy" : " noiseless");
+                finddelay_case(arr_real(x * SC[a]), arr_real(y * SC[b]), d, true, n <= 131 && wk != 2, "fdR", what);
+                out.stat("fd_scale_classes");
+                arr_cmplx xc = white_c(r, n, wk);
+                arr_cmplx yc = dseq(xc, d);
+                finddelay_case(arr_cmplx(xc * SC[a]), arr_cmplx(yc * SC[b]), d, true, false, "fdC", what);
+                // gccphat: Y / (|Y| + eps) is scale invariant only while |Y| >> eps: the small classes are CORR only
+                const bool above_eps = lg > -8;
+                gcc_case(arr_real(y * SC[b]), arr_real(x * SC[a]), FS_LIST[r.range(0, 12)], d, above_eps, n <= 131 && wk != 2 && above_eps, what);
+                out.stat(above_eps ? "gcc_scale_classes" : "gcc_scale_below_eps_not_judged");
+            }
+    // --- temporaries and failed calls: results built from rvalue operands equal those from named operands bit for bit; a call that throws leaves no trace
+    for (int rep = 0; rep < (THOROUGH ? 40 : 8); ++rep) {
+        const int n = r.range(128, 600), d = r.range(-(n / 4), n / 4);
+        const arr_real x = white_r(r, n, 0);
+        const arr_real y = delayseq(x, d);
+        const arr_real twice = x * 2.0;
+        const arr_real named = delayseq(twice, d);
+        const arr_real& tmp = delayseq(x * 2.0, d);                 // temporary argument, result bound to a const reference
+        const arr_real nested = delayseq(delayseq(x * 2.0, d), 0);   // nested temporaries
+        ++out.n_oracle;
+        bool ok = tmp.size() == n && nested.size() == n;
+        for (int i = 0; ok && i < n; ++i) ok = std::memcmp(&tmp[i], &named[i], 8) == 0 && std::memcmp(&nested[i], &named[i], 8) == 0;
+        int k = 0;
+        for (const auto& v : delayseq(x * 2.0, d)) { if (std::memcmp(&v, &named[k], 8) != 0) ok = false; ++k; }   // range-for over a temporary result
+        if (k != n) ok = false;
+        if (!ok) out.fail("C18:delayseq", "{\"fn\":\"delayseq\",\"case\":\"temporary operands differ from named operands\",\"len\":" + I(n) + ",\"d\":" + I(d) + "}");
+        out.stat("ds_temporaries");
+        // finddelay / gccphat with temporaries, before and after a failed call
+        const int fs = FS_LIST[r.range(0, 12)];
+        const int fd0 = finddelay(x, y);
+        const gccphat_res_t g0 = gccphat(y, x, fs);
+        bool threw = false;
+        try { (void)gccphat(arr_real(r.range(1, n - 1)), x, fs); } catch (const std::exception&) { threw = true; }   // size mismatch
+        bool threw_multi = false;
+        try { std::vector<arr_real> sg = {y, arr_real(n + 1)}; (void)gccphat(sg, x, fs); } catch (const std::exception&) { threw_multi = true; }
+        const int fd1 = finddelay(x + 0.0, delayseq(x, d));
+        const gccphat_res_t g1 = gccphat(delayseq(x, d), x * 1.0, fs);
+        ++out.n_oracle;
+        bool same_g = g0.tau == g1.tau && g0.corr.size() == g1.corr.size();
+        for (int i = 0; same_g && i < g0.corr.size(); ++i) same_g = bits_same(g0.corr[i], g1.corr[i]);
+        if (!threw || !threw_multi || fd0 != d || fd1 != d || !same_g)
+            out.fail("C18:gccphat-history", "{\"fn\":\"gccphat/finddelay\",\"case\":\"valid call after a call that threw (size mismatch), temporaries as arguments\",\"len\":" + I(n) + ",\"d\":" + I(d) +
+                                                ",\"fs\":" + I(fs) + ",\"mismatch_threw\":" + (threw && threw_multi ? "true" : "false") + ",\"finddelay_before\":" + I(fd0) + ",\"finddelay_after\":" + I(fd1) +
+                                                ",\"tau_before\":" + vh::jnum(g0.tau) + ",\"tau_after\":" + vh::jnum(g1.tau) + "}");
+        out.stat("gcc_after_failed_call");
+    }
+}
+
 int main(int argc, char** argv) {
     vh::Args args(argc, argv);
     vh::install_guards();
@@ -696,8 +1484,12 @@ int main(int argc, char** argv) {
     run_delayseq(r);
     run_peakloc(r);
     run_delay_estimators(r);
+    run_estimator_extras(r);
     run_detector_all(r);
+    script_cases(r);
+    run_long(r);
     out.stat("det_corr_cases", g_det_corr);
+    out.stat("det_scale_corr_cases", g_scale_corr);
     out.finish();
     return 0;
 }
